@@ -17,6 +17,7 @@ def check(tree, rep, tier='quick', seed=0):
     rep.assumptions = ['roles of the solver attributes are inferred from initialisers and handler use (sa/core.py); if a role cannot be inferred uniquely the run is an analysis error',
                        'NOT decided here: that the dependency trackers never lose a registered waiter (algorithmic; see C06), hence the full "no demanded line left without a value" clause']
     core = get_core(tree)
+    R.k0_solve_shape(core, rep)          # every requested form is known before the first line is attempted
     rep.extra['solver_roles'] = core.solver.describe()
     R.k1_success_condition(core, rep)
     R.k1b_cli_reports(core, rep)
